@@ -18,7 +18,7 @@ theorem CInv.incPar {c : DCommit} (h : CInv t₀ tx₀ del pend st c.t c.tx) {q 
     obtain ⟨hph, hpm⟩ := findD_some hp
     split
     · exact ⟨h, rfl⟩
-    · have h1 := h.replace (d := p) (d' := { p with ver := p.ver + 1 }) hpm rfl rfl rfl
+    · have h1 := h.replace (d := p) (d' := { p with ver := p.ver + 1 }) hpm rfl rfl rfl rfl
         (by
           intro d0 hd0 e
           rcases h.seen.dChg p hpm d0 hd0 e with rfl | hlt
@@ -88,7 +88,7 @@ theorem CInv.add {T : Tables} {X : DTx} {hh : Handle} {n : Descr}
   refine ⟨?_, h.sKeys, h.cKeys, ?_, ?_, ?_, ?_, ?_, ?_, ?_, ?_, h.siKeys, ?_, h.ciKeys, ?_,
     h.seen.add hnh hfresh hnot₀ (by
       have := hi.dCre _ hmem rfl n rfl
-      exact this) hkeys.1, h.siOld0, h.ciOld0⟩
+      exact this) hkeys.1, h.siOld0, h.ciOld0, h.ciNoDel⟩
   · exact nodup_append_single (fun d : Descr => d.handle) h.dKeys (by rw [hnh]; exact hfresh)
   · intro d hd d0 hd0 e
     rcases (hmemL d).1 hd with hd | rfl
@@ -226,7 +226,7 @@ theorem CInv.delete {T : Tables} {X : DTx} (h : CInv t₀ tx₀ del pend st T X)
     exact List.mem_map_of_mem ((R.descrs x).1 hx).1
   have hkeep : ∀ d ∈ T.descrs, d.handle ∉ del → d ∈ T1.descrs := fun d hd hnd => (R.descrs d).2 ⟨hd, fun hx => hnd (hD _ hx)⟩
   refine ⟨(R.dSub.map _).nodup h.dKeys, (R.sSub.map _).nodup h.sKeys, (R.cSub.map _).nodup h.cKeys, ?_, ?_, ?_, ?_, ?_, ?_, ?_, ?_,
-    h.siKeys, ?_, h.ciKeys, ?_, hseen, h.siOld0, h.ciOld0⟩
+    h.siKeys, ?_, h.ciKeys, ?_, hseen, h.siOld0, h.ciOld0, h.ciNoDel⟩
   · intro d hd; exact h.dOld d ((R.descrs d).1 hd).1
   · intro d0 hd0 hnd; exact hpres _ (h.dSurv d0 hd0 hnd) (fun hx => hnd (hD _ hx))
   · intro d hd; exact h.dUp d ((R.descrs d).1 hd).1
